@@ -38,6 +38,9 @@ def run_one(pid, tier, repo, replay=None):
         chk.prog = ctx.prog
         chk.units['files'] = ctx.prog.files()
         mod.run(chk, ctx)
+        if tier == 'thorough':
+            from . import thorough
+            thorough.run_extras(chk, ctx, pid, mod)
         return chk.finish()
     except AnalysisError as err:
         if any(not o.ok for o in chk.obligations):
